@@ -265,6 +265,8 @@ def replay_case(case, sv, wit):
         form = E(S("setv"), S("hv_x"), form)
     elif wit.get("wrap") == "setx":
         form = E(S("setx"), S("hv_x"), form)
+    from hv.rules import let_wrap
+    form = let_wrap(form, toks, sv)
     ctxkw = dict(case.ctxkw)
     if any(k[0] == "completes" and v and (ctxkw.get("atom_abrupt", ("raise",))[v - 1] != "raise") for k, v in decisions.items()
            if isinstance(k, tuple) and k and k[0] == "completes" and k[1] == "S"):
